@@ -21,6 +21,7 @@ NENUM = {"quick": 70, "thorough": 1500}
 NRAND = {"quick": 700, "thorough": 16000}
 NX0 = {"quick": 120, "thorough": 1500}
 NFAULT = {"quick": 120, "thorough": 2500}
+NREGGROW = {"quick": 120, "thorough": 2500}
 CASE_TIMEOUT = {"quick": 300, "thorough": 900}
 NSAMPLES = 5
 MIN_TRIPLES = {"quick": 25, "thorough": 40}
@@ -29,7 +30,7 @@ MIN_TRIPLES = {"quick": 25, "thorough": 40}
 def cases(tier, seed):
     out = []
     i = 0
-    for t, n in (("enum", NENUM[tier]), ("rand", NRAND[tier]), ("x0exit", NX0[tier]), ("fault", NFAULT[tier])):
+    for t, n in (("enum", NENUM[tier]), ("rand", NRAND[tier]), ("x0exit", NX0[tier]), ("fault", NFAULT[tier]), ("reggrow", NREGGROW[tier])):
         for _ in range(n):
             out.append(dict(i=i, seed=seed, type=t))
             i += 1
@@ -56,6 +57,19 @@ def make_cfg(seed, i, typ):
         else:
             cfg["args"]["maxfun"] = int(rng.integers(1, 4))
             cfg["nsamples"] = dict(kind="const", v=int(rng.integers(2, 6)))
+    elif typ == "reggrow":
+        # regulariser + bounds + growing / random-direction options: stored raw points can lie outside the box while the objective
+        # is evaluated at the clipped point (found by the C17 in-situ slot check: h was added at the raw point)
+        n = int(rng.integers(2, 5))
+        spec = gen.gen_problem(rng, kinds=("linear", "sinlin", "rosen"), n=n, m=int(rng.integers(n, n + 3)))
+        box = gen.gen_box(rng, n, scaling_p=0.0, one_sided_p=0.0, place_p=0.6)
+        up = {"growing.ndirs_initial": int(rng.integers(1, n)), "growing.num_new_dirns_each_iter": int(rng.integers(0, 3))}
+        if rng.random() < 0.3:
+            up["growing.do_geom_steps"] = True
+        cfg = dict(prob=spec, x0=box["x0"], lower=[v if v is not None else -5.0 for v in box["lower"]],
+                   upper=[v if v is not None else 5.0 for v in box["upper"]], user_params=up,
+                   args=dict(maxfun=int(rng.integers(3, 14)), rhobeg=box["rhobeg"], rhoend=box["rhobeg"] * 1e-4),
+                   reg=dict(type=gen.pick(rng, ["l1", "l2"]), lam=float(10.0 ** rng.uniform(-1, 0.5))))
     else:
         cfg = campaign.gen_cfg(rng, restarts_p=0.5, term_p=0.1, reg_p=0.04, proj_p=0.04)
         cfg["faults"] = {str(int(rng.integers(2, 35))): "nan"}
